@@ -12,7 +12,7 @@ class LoaderHooks(wirehooks.WireHooks):
     """Keeps the top-level (de)serialization entry points opaque."""
 
     def call(self, ip, frame, st, e, callee, dj, targs, resolved, rargs, args):
-        if dj.get("krate") == "epserde" and dj.get("name") in ("deserialize_eps", "deserialize_full", "serialize", "serialize_on_field_write") and dj.get("parent_kind") in ("Trait", None) and frame.depth == 0:
+        if dj.get("krate") == "epserde" and dj.get("name") in ("deserialize_eps", "deserialize_full", "serialize", "serialize_on_field_write") and dj.get("parent_kind") in ("Trait", None) and frame.depth <= 2:
             lv = tuple(ip.load_ref(st, a) for a in args)
             # what the local places mentioned by the arguments hold right now (provenance of raw views)
             roots = []
@@ -146,6 +146,13 @@ def rule_loader_paths(u, rep, want=("LEAK", "RAW", "FILL", "ARG", "CAP")):
                             rep.oblige(ok)
                             if not ok:
                                 rep.add("ARG", name, "%s: the bytes handed to deserialize_eps are not taken from the backend at its final place inside the MemCase being built (%s)" % (name, label(a)[:120]), b.loc())
+                if e[0] == "Loop" and isinstance(e[1], tuple) and e[1] and e[1][0] == "itercount" and isinstance(e[2], tuple) and len(e[2]) == 1:
+                    # `for byte in &mut bytes[file_len..] { *byte = 0 }` is `bytes[file_len..].fill(0)`
+                    itv = e[1][2]
+                    st_ = e[2][0]
+                    if isinstance(itv, tuple) and itv and itv[0] == "index" and isinstance(itv[2], tuple) and itv[2][0] == "adt" and itv[2][1].endswith("::RangeFrom") \
+                            and st_[0] == "Store" and isinstance(st_[1], tuple) and st_[1] and st_[1][0] == "elem" and st_[1][1] == itv and st_[-1] == C(0):
+                        fills.append((i, itv[1], dict(itv[2][3]).get(0)))
                 if e[0] == "R" and len(e) > 3 and e[2] == "B" and read_idx is None:
                     read_idx = i
                     copying = True
@@ -329,9 +336,18 @@ def rule_flags(u, rep):
             continue
         found = True
         pairs = []
+        table = []
 
         def walk(e):
             if isinstance(e, dict):
+                if e.get("k") == "Tuple" and len(e.get("fields", e.get("es", []))) == 2:
+                    # table form: `for (ours, theirs) in [(Self::X, MmapFlags::X), ..] { if self.contains(ours) { flags |= theirs } }`
+                    fs = e.get("fields", e.get("es", []))
+                    l_, r_ = [], []
+                    collect_consts(b.crate, fs[0], l_)
+                    collect_consts(b.crate, fs[1], r_)
+                    if len(l_) == 1 and len(r_) == 1:
+                        table.append((l_[0], r_[0]))
                 if e.get("k") == "If":
                     cond = e["cond"]
                     consts = []
@@ -346,6 +362,12 @@ def rule_flags(u, rep):
                 for v in e:
                     walk(v)
         walk(b.thir["root"])
+        if table and not pairs:
+            # the table is only as good as the loop that consumes it: one `contains(<first>)` test guarding one `|= <second>`
+            acc = []
+            rules_err.calls_in(b.crate, b.thir["root"], acc)
+            if any(dj.get("name") == "contains" for dj, _r, _e in acc) and any(dj.get("name") in ("bitor_assign", "insert", "bitor") for dj, _r, _e in acc):
+                pairs = table
         names = set()
         for (a, s_) in pairs:
             ok = a.split("::")[-1] == s_.split("::")[-1]
@@ -412,7 +434,10 @@ def rule_store(u, rep):
                 rep.add("STORE", "extra-bytes", "store writes to the file outside the single serialize call (%s): the file is no longer exactly the serialized stream" % (extra[0][2] if extra[0][0] == "Call" else "stream write"), extra[0][-1] if extra[0][0] == "W" else extra[0][4])
         # errors of serialize propagate
         errs = [p for p in paths if outcome_of(u, p)[0] == "err"]
-        ok = any(any(e[0] == "TryErr" and mentions(e[2], lambda x: x and x[0] == "call" and x[1] == "serialize") for e in p.events) for p in errs)
+        is_ser = lambda x: x and x[0] == "call" and x[1] == "serialize"
+        ok = any(any(e[0] == "TryErr" and mentions(e[2], is_ser) for e in p.events) for p in errs)
+        # ... or through an explicit `Err(e) => Err(e)` arm over the result of serialize
+        ok = ok or any(any(c[0] == "variant" and c[2] == RESULT and c[3] == 1 and mentions(c[1], is_ser) for c in p.conds) and mentions(p.value, is_ser) for p in errs)
         rep.oblige(ok)
         if not ok:
             rep.add("STORE", "propagate", "store does not propagate a failure of serialize", b.loc())
@@ -777,6 +802,16 @@ def rule_partial_leak(u, rep, scope_files, crate="epserde", rule="LEAK-PARTIAL")
         if not loops:
             continue
         cleans_up = any(dj.get("name") in ("drop_in_place",) for dj, _r, _e in whole)
+        if not cleans_up:
+            # ... or through a helper of the crate that does (one or two levels down)
+            def drops_inside(did, depth=0):
+                hb = u.bodies.get(did)
+                if hb is None or hb.thir is None or depth > 2:
+                    return False
+                inner = []
+                rules_err.calls_in(hb.crate, hb.thir["root"], inner)
+                return any(d2.get("name") == "drop_in_place" or (d2.get("krate") == crate and drops_inside(d2.get("id"), depth + 1)) for d2, _r2, _e2 in inner)
+            cleans_up = any(dj.get("krate") == crate and drops_inside((rj or dj).get("id")) for dj, rj, _e in whole)
         if not cleans_up:
             # ... or hands the prefix to a drop guard
             built = []
